@@ -301,16 +301,28 @@ mod numeric_formatting {
         Ok(result)
     }
 
+    /// Rounds halves away from zero, like the fields without decimals do
+    /// (`{:.N}` alone rounds halves to even: .25 would print as 0.2).
+    fn format_fraction(value: f64, fractional_digits: usize) -> String {
+        let scale = 10f64.powi(fractional_digits as i32);
+        let scaled = value * scale;
+        if scaled.is_finite() && scaled.abs() < 9.0e15 {
+            format!("{:.1$}", scaled.round() / scale, fractional_digits)
+        } else {
+            format!("{:.1$}", value, fractional_digits)
+        }
+    }
+
     fn format_variant(v: Variant, fractional_digits: usize) -> Result<String, RuntimeError> {
         match v {
             Variant::VSingle(f) => Ok(if fractional_digits > 0 {
-                format!("{:.1$}", f, fractional_digits)
+                format_fraction(f as f64, fractional_digits)
             } else {
                 let l = f.round() as i64;
                 l.to_string()
             }),
             Variant::VDouble(d) => Ok(if fractional_digits > 0 {
-                format!("{:.1$}", d, fractional_digits)
+                format_fraction(d, fractional_digits)
             } else {
                 let l = d.round() as i64;
                 l.to_string()
